@@ -1,18 +1,22 @@
 (* Correspondence evaluator for C18.  A case carries an index file (as decoded), the
    constraint tables computed by the real Masterminds/semver library, and what the real Helm
-   functions returned; [mismatches] reports the cases where the models of Misc/Semver.v and
-   Misc/Index.v disagree with those observations.
+   functions returned; [mismatches] reports the cases where the models of Misc/Semver.v,
+   Misc/Constraint.v and Misc/Index.v disagree with those observations.
 
    Compared observables:
    - load: error class, or per chart name the loaded records — the same multiset as the
      model's and position-wise in the same precedence class (sort.Sort is unstable and build
      metadata is ignored, so the order inside a class is not an observable);
    - Get / tag match: run on the OBSERVED loaded list (that is Get's input), compared exactly;
+     the constraint semantics is the MODEL's (Constraint.cvalid / Constraint.sat); the same
+     queries are evaluated a second time with the library's tables as a cross-check;
+   - constraint language: NewConstraint ok / Check of the library against cvalid / sat of the
+     model, for every cell of the tables and for the generated (constraint, versions) pairs;
    - Resolve: locked versions position-wise in the same precedence class as the model's and
      each a real candidate of the index;
    - parse/compare: fields of semver.NewVersion and the result of Version.Compare. *)
 From Coq Require Import List String Ascii Bool NArith.
-From Helm Require Import Misc.Semver Misc.Index.
+From Helm Require Import Misc.Semver Misc.Constraint Misc.Index.
 Import ListNotations.
 Local Open Scope string_scope.
 
@@ -34,7 +38,10 @@ Record case := mkCase {
   c_gets : list (string * string * get_obs);
   c_tags : list (list string * string * tag_obs);
   c_res : list (list dep * res_obs);
-  c_cmps : list cmp_obs
+  c_cmps : list cmp_obs;
+  c_cvers : list string;                              (* shared version list of c_cfix *)
+  c_cfix : list (string * option string);             (* c -> None (NewConstraint failed) | Check bits *)
+  c_cpairs : list (string * list string * option string)   (* the same with own version lists *)
 }.
 
 (* ---- tables ---- *)
@@ -111,6 +118,7 @@ Definition gets_ok (c : case) : bool :=
   match c_load c with
   | OLOk o =>
       forallb (fun q => let '(n, v, ob) := q in
+                        get_agree (get cvalid sat o n v) ob &&
                         get_agree (get (tbl_cvalid (c_cvalid c)) (tbl_sat (c_sat c)) o n v) ob)
               (c_gets c)
   | _ => match c_gets c with [] => true | _ => false end
@@ -126,36 +134,43 @@ Definition tag_agree (m : tag_result) (o : tag_obs) : bool :=
 
 Definition tags_ok (c : case) : bool :=
   forallb (fun q => let '(tags, v, ob) := q in
+                    tag_agree (tag_match cvalid sat tags v) ob &&
                     tag_agree (tag_match (tbl_cvalid (c_cvalid c)) (tbl_sat (c_sat c)) tags v) ob)
           (c_tags c).
 
 (* an observed lock version is a real candidate of the loaded index *)
-Definition is_candidate (c : case) (lr : load_result) (d : dep) (s : string) : bool :=
+Definition is_candidate (sat : string -> version -> bool) (lr : load_result) (d : dep) (s : string) : bool :=
   match lr with
   | LOk idx =>
       match assoc (dname d) idx with
       | Some vs => existsb (fun e => String.eqb (eversion e) s &&
-                                     dep_candidate (tbl_sat (c_sat c)) (dconstraint d) e) vs
+                                     dep_candidate sat (dconstraint d) e) vs
       | None => false
       end
   | _ => false
   end.
 
-Fixpoint locks_agree (c : case) (lr : load_result) (ds : list dep) (m o : list string) : bool :=
+Fixpoint locks_agree (sat : string -> version -> bool) (lr : load_result) (ds : list dep)
+         (m o : list string) : bool :=
   match ds, m, o with
   | [], [], [] => true
-  | d :: dt, a :: mt, b :: ot => same_prec a b && is_candidate c lr d b && locks_agree c lr dt mt ot
+  | d :: dt, a :: mt, b :: ot => same_prec a b && is_candidate sat lr d b && locks_agree sat lr dt mt ot
   | _, _, _ => false
+  end.
+
+Definition res_agree (cv : string -> bool) (st : string -> version -> bool) (lr : load_result)
+           (ds : list dep) (ob : res_obs) : bool :=
+  match resolve cv st lr ds, ob with
+  | None, ORErr => true
+  | Some m, OROk o => locks_agree st lr ds m o
+  | _, _ => false
   end.
 
 Definition res_ok (c : case) : bool :=
   let lr := load_index isort (c_file c) in
   forallb (fun q => let '(ds, ob) := q in
-                    match resolve (tbl_cvalid (c_cvalid c)) (tbl_sat (c_sat c)) lr ds, ob with
-                    | None, ORErr => true
-                    | Some m, OROk o => locks_agree c lr ds m o
-                    | _, _ => false
-                    end)
+                    res_agree cvalid sat lr ds ob &&
+                    res_agree (tbl_cvalid (c_cvalid c)) (tbl_sat (c_sat c)) lr ds ob)
           (c_res c).
 
 Definition parse_agree (o : ver_obs) : bool :=
@@ -191,8 +206,43 @@ Definition star_ok (c : case) : bool :=
                         end) row
   end.
 
+(* ---- the constraint language: library vs model ---- *)
+
+(* Check of a parsed constraint against parsed versions, printed as the harness prints it *)
+Fixpoint check_bits (cs : list (list constr)) (pvs : list (option version)) : string :=
+  match pvs with
+  | [] => EmptyString
+  | Some v :: t => String (if constraints_check cs v then "1" else "0")%char (check_bits cs t)
+  | None :: t => String "-"%char (check_bits cs t)
+  end.
+
+Definition cpair_ok (c : string) (pvs : list (option version)) (o : option string) : bool :=
+  match new_constraint c, o with
+  | None, None => true
+  | Some cs, Some bits => String.eqb (check_bits cs pvs) bits
+  | _, _ => false
+  end.
+
+(* every cell of the tables the queries use *)
+Definition ctables_ok (c : case) : bool :=
+  forallb (fun p => Bool.eqb (cvalid (fst p)) (snd p)) (c_cvalid c) &&
+  forallb (fun r => match new_constraint (fst r) with
+                    | None => false
+                    | Some cs =>
+                        forallb (fun p => match parse_version (fst p) with
+                                          | Some v => Bool.eqb (constraints_check cs v) (snd p)
+                                          | None => false
+                                          end) (snd r)
+                    end) (c_sat c).
+
+Definition cpairs_ok (c : case) : bool :=
+  let shared := map parse_version (c_cvers c) in
+  forallb (fun p => cpair_ok (fst p) shared (snd p)) (c_cfix c) &&
+  forallb (fun q => let '(k, vs, o) := q in cpair_ok k (map parse_version vs) o) (c_cpairs c).
+
 Definition case_ok (c : case) : bool :=
-  load_ok c && gets_ok c && tags_ok c && res_ok c && forallb cmp_ok (c_cmps c) && star_ok c.
+  load_ok c && gets_ok c && tags_ok c && res_ok c && forallb cmp_ok (c_cmps c) && star_ok c &&
+  ctables_ok c && cpairs_ok c.
 
 Fixpoint mismatches_from (i : nat) (cs : list case) : list nat :=
   match cs with
